@@ -75,6 +75,10 @@ func verifC02Stream(mode int, async, customExec bool, bufSize, maxReads int, bur
 		}
 	}
 	verifJoin()
+	// everything is idle: all that was sent has been delivered (without waiting
+	// for more input to arrive and wake a reader that went to sleep too early)
+	verifAssertD(len(got) == len(sent), "every-byte-delivered-exactly-once", name+"/at-quiescence")
+	verifAssertD(len(f.rq) == 0, "no-input-left-unread-at-quiescence", name+"/before-probe")
 	if !halfClose {
 		// the readers are idle now; one more byte must wake them, be delivered,
 		// and leave them idle again (a reader left in a bad state spins here and
